@@ -54,36 +54,50 @@ TF_NAMES = ["1Min", "1D", "1H", "5Min", "1Sec", "15Min"]
 E0 = 1577836800 + 86400 * 5
 
 
-def jail_concretise(rng, c, widx, inexact=False):
-    nm = rng.choice(INEXACT_NAMES) if inexact else rng.choice(SAFE_NAMES)
-    tfn = rng.choice(TF_NAMES)
-    tok = {"N": nm, "T": tfn, "D": ".", "U": "..", "E": "", "R": "root", "S": "sib"}
-    items = [tok[t] for t in c["items"]]
-    key = "/".join(items) + ":" + "/".join(c["cats"])
+def jail_unit(rng, members, widx, full_start=False):
+    """one driver case: a fresh world, an instance on its root and the requests of `members` (model cases).  A unit has
+    one member (snapshot after every request) or several members for which the model predicts no file-system
+    effect at all (one snapshot per member)."""
     W = os.path.join(vlib.scratch(), "w16", "w%d" % widx)
     root = os.path.join(W, ROOT_REL)
+    world = members[0][0]["world"]
     files = {"canary0": "c0", "jail/canary": "cj", "jail/l1/canary": "c1", "jail/l1/l2/canary": "c2", "jail/l1/l2/l3/canary": "c3"}
     dirs = [ROOT_REL]
-    if c["world"] == "sib":
+    if world == "sib":
         dirs.append("jail/l1/l2/l3/sib/keep")
         files["jail/l1/l2/l3/sib/keep/2020.bin"] = "foreign data"
         files["jail/l1/l2/l3/sib/notes.txt"] = "foreign notes"
     sx = {"dir": W, "exclude": [root]}
-    via = rng.choice(["csm", "rpc"])
-    ops = [{"op": "world", "x": {"dir": W, "dirs": dirs, "files": files}}, {"op": "start", "root": root}, {"op": "snap", "x": sx}]
-    for st in c["steps"]:
-        if st["op"] == "create":
-            ops.append({"op": "create", "key": key, "names": ["a"], "types": ["i4"]})
-        elif st["op"] == "write":
-            ops.append({"op": "write", "via": via, "buckets": [{"key": key, "cols": [
-                {"name": "Epoch", "type": "i8", "vals": [E0]}, {"name": "a", "type": "i4", "vals": [7]}]}]})
-        elif st["op"] == "query":
-            ops.append({"op": "query", "dest": key})
-        else:
-            ops.append({"op": "destroy", "key": key})
-        ops.append({"op": "snap", "x": sx})
+    start = {"op": "start", "root": root} if full_start else {"op": "jstart", "root": root, "x": {"waldir": os.path.join(vlib.scratch(), "w16", "wal")}}
+    ops = [{"op": "world", "x": {"dir": W, "dirs": dirs, "files": files}}, start, {"op": "snap", "x": sx}]
+    out = []
+    last_snap = 2
+    for c, inexact in members:
+        nm = rng.choice(INEXACT_NAMES) if inexact else rng.choice(SAFE_NAMES)
+        tok = {"N": nm, "T": rng.choice(TF_NAMES), "D": ".", "U": "..", "E": "", "R": "root", "S": "sib"}
+        key = "/".join(tok[t] for t in c["items"]) + ":" + "/".join(c["cats"])
+        via = rng.choice(["csm", "rpc"])
+        snaps = [last_snap]
+        for st in c["steps"]:
+            if st["op"] == "create":
+                ops.append({"op": "create", "key": key, "names": ["a"], "types": ["i4"]})
+            elif st["op"] == "write":
+                ops.append({"op": "write", "via": via, "buckets": [{"key": key, "cols": [
+                    {"name": "Epoch", "type": "i8", "vals": [E0]}, {"name": "a", "type": "i4", "vals": [7]}]}]})
+            elif st["op"] == "query":
+                ops.append({"op": "query", "dest": key})
+            else:
+                ops.append({"op": "destroy", "key": key})
+            if len(members) == 1:
+                ops.append({"op": "snap", "x": sx})
+                snaps.append(len(ops) - 1)
+        if len(members) > 1:
+            ops.append({"op": "snap", "x": sx})
+            snaps.append(len(ops) - 1)
+        last_snap = snaps[-1]
+        out.append(dict(c=c, key=key, tok=tok, inexact=inexact, via=via, snaps=snaps, full_start=full_start))
     ops.append({"op": "rmworld", "x": {"dir": W}})
-    return dict(key=key, tok=tok, ops=ops, inexact=inexact, via=via)
+    return ops, out
 
 
 YEARBIN = re.compile(r"^\d{1,5}\.bin$")
@@ -146,7 +160,7 @@ def run_c16(res, tier, rng, binary):
     # ---- E1: the validating implementation keeps every touch under the root (all keys of <= 4 components)
     cfg = "PathJail_pure.cfg"
     r = vlib.run_tlc("PathJail", cfg, timeout=1500,
-                     cfg_text=vlib.cfg_text(dict(base, MaxLen=4, Deviations="{}"), invariants=["TouchedUnderRoot", "TreeShaped"]))
+                     cfg_text=vlib.cfg_text(dict(base, MaxLen=3 if quick else 4, Deviations="{}"), invariants=["TouchedUnderRoot", "TreeShaped"]))
     vlib.tlc_ok(r, cfg)
     if r["violated"]:
         raise Undecided("MODEL-DRIFT: %s violates %s\n%s" % (cfg, r["violated"], r["out"][-3000:]))
@@ -165,63 +179,725 @@ def run_c16(res, tier, rng, binary):
         raise Undecided("TLC case export incomplete: %d cases, %d states" % (len(allc), r["distinct"]))
     allc.sort(key=lambda c: json.dumps(c, sort_keys=True))
     esc = [c for c in allc if any(s["out"] for s in c["steps"])]
-    rest = [c for c in allc if not any(s["out"] for s in c["steps"])]
+    inert = [c for c in allc if not any(s["out"] or s["nin"] for s in c["steps"])]
+    inside = [c for c in allc if not any(s["out"] for s in c["steps"]) and any(s["nin"] for s in c["steps"])]
     if quick:
-        short = [c for c in rest if len(c["items"]) <= 2]
-        long_ = [c for c in rest if len(c["items"]) > 2]
-        sel = rng.sample(esc, min(len(esc), 700)) + short + rng.sample(long_, min(len(long_), 1500))
+        esc_sel = rng.sample(esc, min(len(esc), 300))
+        inside_sel = rng.sample(inside, min(len(inside), 400))
+        inert_sel = [c for c in inert if len(c["items"]) <= 2] + rng.sample([c for c in inert if len(c["items"]) > 2], 1200)
+        n_full = 60
     else:
-        sel = allc
+        esc_sel, inside_sel, inert_sel, n_full = esc, inside, inert, 1500
     res.cov["keys_enumerated"] = len({json.dumps(c["items"]) for c in allc})
     res.cov["cases_enumerated"] = len(allc)
     res.cov["cases_with_predicted_escape"] = len(esc)
+    # units: one world per case that touches anything; batches of 40 for cases predicted to touch nothing;
+    # a seeded sample goes through the generic `start` (full dependency-injection container, own WAL in the root)
+    units = []
+    single = esc_sel + inside_sel
+    for n, c in enumerate(single):
+        units.append(([(c, n % 23 == 22)], False))
+    for c in rng.sample(single, min(len(single), n_full)):
+        units.append(([(c, False)], True))
+    for w in ("bare", "sib"):
+        grp = [c for c in inert_sel if c["world"] == w]
+        rng.shuffle(grp)
+        for ch in chunks(grp, 40):
+            units.append(([(c, i % 7 == 6) for i, c in enumerate(ch)], False))
     cases, meta = [], {}
-    for n, c in enumerate(sel):
-        inexact = n % 23 == 22
-        k = jail_concretise(rng, c, n, inexact=inexact)
+    for n, (members, full) in enumerate(units):
+        ops, ms = jail_unit(rng, members, n, full_start=full)
         cid = "j%d" % n
-        cases.append({"id": cid, "ops": k["ops"]})
-        meta[json.dumps(cid)] = (c, k)
-    obs = run_chunked(binary, cases, 1500, timeout=3000)
+        cases.append({"id": cid, "ops": ops})
+        meta[json.dumps(cid)] = (ops, ms)
+    obs = run_chunked(binary, cases, 400, timeout=6000)
     stats = collections.Counter()
-    for cid, (c, k) in meta.items():
+    for cid, (ops, ms) in meta.items():
         o = obs.get(cid)
-        replay = {"check": "schema", "prop": "C16", "key": k["key"], "world": c["world"], "via": k["via"], "model_case": c, "seed": vlib.seed(),
-                  "ops": k["ops"]}
         if o is None:
             raise Undecided("no observation for case %s" % cid)
         if isinstance(o, dict) and "died" in o:
             # a dying server is not by itself a C16 violation; the jail of this case cannot be compared any more
-            stats["died"] += 1
-            raise Undecided("driver died in C16 case %s (%s): %s" % (k["key"], o["died"], (o.get("stderr") or o.get("stdout") or "")[-400:]))
+            raise Undecided("driver died in C16 unit %s (%s): %s" % ([m["key"] for m in ms][:3], o["died"], (o.get("stderr") or o.get("stdout") or "")[-400:]))
         if any(x.get("driver_error") for x in o if isinstance(x, dict)):
-            raise Undecided("driver error in C16 case %s: %s" % (k["key"], [x for x in o if x.get("driver_error")][:1]))
-        res.cov["traces_validated_against_impl"] += 1
-        snaps = [o[2]] + [o[4 + 2 * i] for i in range(len(c["steps"]))]
-        for i, st in enumerate(c["steps"]):
-            real = snap_diff(snaps[i], snaps[i + 1])
-            exp = model_out(st, k["tok"], snaps[i])
-            stats["steps"] += 1
-            if not real:
-                if exp:
-                    stats["model_predicted_escape_not_observed"] += 1
-                continue
-            stats["steps_touching_outside"] += 1
-            fits = (real <= exp) if k["inexact"] else (real == exp)
-            if c["escapes"] and "JoinUnchecked" in known and fits:
-                res.known_finding(known["JoinUnchecked"], {"key": k["key"], "op": st["op"], "touched_outside_root": sorted(real)[:6]})
-                stats["known_escape_steps"] += 1
-                continue
-            res.violation("request %s with key %r (world %s) changed the file system outside the data root: %s%s" % (
-                st["op"], k["key"], c["world"], sorted(real)[:12],
-                "" if not c["escapes"] else "; the key has the known '..' signature but the changes differ from the known behaviour %s" % sorted(exp)[:12]),
-                dict(replay, step=i))
-            break
-        res.sample({"key": k["key"], "world": c["world"], "ops": [s["op"] for s in c["steps"]], "escapes": c["escapes"]}, limit=4)
+            raise Undecided("driver error in C16 unit %s: %s" % ([m["key"] for m in ms][:3], [x for x in o if x.get("driver_error")][:1]))
+        for k in ms:
+            c = k["c"]
+            replay = {"check": "schema", "prop": "C16", "key": k["key"], "world": c["world"], "via": k["via"], "model_case": c,
+                      "seed": vlib.seed(), "ops": ops, "full_start": k["full_start"]}
+            res.cov["traces_validated_against_impl"] += 1
+            stats["via_full_start" if k["full_start"] else "via_light_instance"] += 1
+            snaps = [o[i] for i in k["snaps"]]
+            if len(snaps) == 2 and len(c["steps"]) > 1:
+                steps = [dict(op="+".join(s["op"] for s in c["steps"]), out=[])]      # batched member: predicted inert
+            else:
+                steps = c["steps"]
+            for i, st in enumerate(steps):
+                real = snap_diff(snaps[i], snaps[i + 1])
+                exp = model_out(st, k["tok"], snaps[i])
+                stats["requests"] += len(st["op"].split("+"))
+                if not real:
+                    if exp:
+                        stats["model_predicted_escape_not_observed"] += 1
+                    continue
+                stats["requests_touching_outside"] += 1
+                fits = (real <= exp) if k["inexact"] else (real == exp)
+                if c["escapes"] and "JoinUnchecked" in known and fits:
+                    res.known_finding(known["JoinUnchecked"], {"key": k["key"], "op": st["op"], "touched_outside_root": sorted(real)[:6]})
+                    stats["known_escape_requests"] += 1
+                    continue
+                res.violation("request %s with key %r (world %s) changed the file system outside the data root: %s%s" % (
+                    st["op"], k["key"], c["world"], sorted(real)[:12],
+                    "" if not c["escapes"] else "; the key has the known '..' signature but the changes differ from the known behaviour %s" % sorted(exp)[:12]),
+                    dict(replay, step=i))
+                break
+            res.sample({"key": k["key"], "world": c["world"], "ops": [s["op"] for s in c["steps"]], "escapes": c["escapes"]}, limit=4)
     res.cov["c16_stats"] = dict(stats)
-    res.cov["distinct_keys_replayed"] = len({k["key"] for _, k in meta.values()})
+    res.cov["distinct_keys_replayed"] = len({k["key"] for _, ms in meta.values() for k in ms})
     res.assumptions += ["lexical escapes only (no symbolic links inside the data root)",
                         "the class 'name' is concretised to odd but valid file names; names with NUL, ':' or 300 bytes are checked with the subset rule"]
+    return res.finish()
+
+
+# ======================================================================================================
+# C14  schema pairs
+# ======================================================================================================
+NUM_TYPES = ["i1", "i2", "i4", "i8", "u1", "u2", "u4", "u8", "f4", "f8"]
+BITS = {"i1": 8, "i2": 16, "i4": 32, "i8": 64, "u1": 8, "u2": 16, "u4": 32, "u8": 64}
+FMT = {"i1": "<b", "i2": "<h", "i4": "<i", "i8": "<q", "u1": "<B", "u2": "<H", "u4": "<I", "u8": "<Q", "f4": "<f", "f8": "<d"}
+SIZE = {t: struct.calcsize(f) for t, f in FMT.items()}
+
+
+def f32(x):
+    return struct.unpack("<f", struct.pack("<f", x))[0]
+
+
+BOUNDARY = {
+    "i1": [-128, 127, -1, 0, 1, 100],
+    "i2": [-32768, 32767, -1, 0, 255, 256, -129],
+    "i4": [-2 ** 31, 2 ** 31 - 1, -1, 65536, 2 ** 24 + 1, -32769, 128],
+    "i8": [-2 ** 63, 2 ** 63 - 1, -1, 2 ** 53 + 1, 2 ** 32, 2 ** 60 + 2 ** 36 + 1, 2 ** 31, -2 ** 31 - 1, 200],
+    "u1": [0, 255, 128, 127],
+    "u2": [65535, 32768, 256, 1],
+    "u4": [2 ** 32 - 1, 2 ** 31, 2 ** 24 + 1, 65536, 7],
+    "u8": [2 ** 64 - 1, 2 ** 63, 2 ** 53 + 1, 2 ** 32, 1, 2 ** 60 + 2 ** 36 + 1],
+    "f4": [f32(x) for x in [1.5, -2.75, 0.0, 16777216.0, 3.0e9, -0.5, 127.9, 1e-3, 255.99, -128.5, 65535.5, 3.0e38, -32768.0]],
+    "f8": [-2.25, 0.1, 2.0 ** 53, 3.4e38, 1e-50, 16777217.0, 4294967295.5, -2147483648.9, 127.99999, 9.0e18, 255.5, -0.99, 1e15 + 0.5],
+}
+
+
+def is_int(t):
+    return t[0] in "iu"
+
+
+def int_range(t):
+    b = BITS[t]
+    return (-(1 << (b - 1)), (1 << (b - 1)) - 1) if t[0] == "i" else (0, (1 << b) - 1)
+
+
+def wrap(x, t):
+    """Go integer conversion: keep the low bits, reinterpret; i1 is kept as an unsigned byte (the element type is byte)"""
+    b = BITS[t]
+    x &= (1 << b) - 1
+    if t[0] == "i" and t != "i1" and x >= 1 << (b - 1):
+        x -= 1 << b
+    return x
+
+
+def int_to_f32_direct(x):
+    """correctly rounded (single rounding, ties to even) float32 of an integer"""
+    if x == 0:
+        return 0.0
+    sgn, a = (-1, -x) if x < 0 else (1, x)
+    n = a.bit_length()
+    if n <= 24:
+        return float(sgn * a)
+    sh = n - 24
+    q, rem, half = a >> sh, a & ((1 << sh) - 1), 1 << (sh - 1)
+    if rem > half or (rem == half and q & 1):
+        q += 1
+    return float(sgn * (q << sh))
+
+
+def convertible(v, it, bt):
+    """is the Go conversion of input value v (type it) to type bt defined by the language?"""
+    if is_int(bt) and not is_int(it):
+        lo, hi = int_range(bt)
+        return lo <= int(v) <= hi and abs(v) < 2.0 ** 62
+    if bt == "f4" and it == "f8":
+        return abs(v) <= 3.4028234663852886e38
+    return True
+
+
+def conv(v, it, bt):
+    """acceptable stored values (canonical form) of input value v of type it in a column of type bt; first = what
+    the code's own path (via int64 / uint64 / float64) produces"""
+    if is_int(bt):
+        x = int(v) if not is_int(it) else v          # truncation toward zero
+        return [wrap(x, bt)]
+    if bt == "f8":
+        return [float(v)]
+    if is_int(it):
+        return [f32(float(v)), int_to_f32_direct(v)]
+    return [f32(v)]
+
+
+def canon(v, t):
+    """canonical form of a value read back from a column of type t"""
+    if is_int(t):
+        return wrap(int(v), t)
+    return f32(float(v)) if t == "f4" else float(v)
+
+
+def same_val(a, b, t):
+    """values as they come back through JSON: the sign of zero and NaN payloads are not preserved"""
+    if is_int(t):
+        return a == b
+    if a != a or b != b:
+        return a != a and b != b
+    return a == b
+
+
+def pack_val(v, t):
+    if t == "i1":
+        return struct.pack("<B", v & 0xFF)
+    return struct.pack(FMT[t], v)
+
+
+def unpack_val(b, t):
+    if t == "i1":
+        return b[0]
+    return struct.unpack(FMT[t], b)[0]
+
+
+class TypePicker:
+    """hands out concrete wire types so that every ordered pair of the 10 numeric types is used again and again"""
+
+    def __init__(self, rng):
+        self.pairs = [(a, b) for a in NUM_TYPES for b in NUM_TYPES if a != b]
+        rng.shuffle(self.pairs)
+        self.same = list(NUM_TYPES)
+        rng.shuffle(self.same)
+        self.i = self.j = 0
+        self.used = collections.Counter()
+
+    def pair(self):
+        p = self.pairs[self.i % len(self.pairs)]
+        self.i += 1
+        self.used[p] += 1
+        return p
+
+    def one(self):
+        t = self.same[self.j % len(self.same)]
+        self.j += 1
+        return t
+
+
+def c14_concretise(rng, tp, bk, uid):
+    """model request (list of bucket cases) -> concrete buckets: names, bucket types, input types, rows"""
+    out = []
+    for b, bc in enumerate(bk):
+        bt, it = {}, {}
+        ids = {}
+        # model type ids are per (column name): equal id <=> equal wire type
+        for col in bc["bs"]:
+            ids.setdefault(col["n"], {})["b"] = col["t"]
+        for col in bc["is"]:
+            ids.setdefault(col["n"], {})["i"] = col["t"]
+        for n, d in ids.items():
+            if "b" in d and "i" in d and d["b"] != d["i"]:
+                bt[n], it[n] = tp.pair()
+            else:
+                t = tp.one()
+                if "b" in d:
+                    bt[n] = t
+                if "i" in d:
+                    it[n] = t
+        rows = []
+        for r in range(2):
+            vals = {}
+            for n in it:
+                tgt = bt.get(n, it[n])
+                cand = [v for v in BOUNDARY[it[n]] if convertible(v, it[n], tgt)]
+                vals[n] = rng.choice(cand)
+            rows.append(vals)
+        base = {n: rng.choice([v for v in BOUNDARY[bt[n]]]) for n in bt}
+        out.append(dict(key="P%sb%d/1H/G" % (uid, b), absent=not bc["bs"], bnames=[c["n"] for c in bc["bs"]], inames=[c["n"] for c in bc["is"]],
+                        bt=bt, it=it, rows=rows, base=base, epos=rng.randrange(len(bc["is"]) + 1)))
+    return out
+
+
+EB = 1583020800 + 3600 * 5      # 2020-03-01 05:00
+
+
+def in_cols(cb):
+    cols = [{"name": n, "type": cb["it"][n], "vals": [r[n] for r in cb["rows"]]} for n in cb["inames"]]
+    cols.insert(cb["epos"], {"name": "Epoch", "type": "i8", "vals": [EB, EB + 3600]})
+    return cols
+
+
+def c14_ops(cbs, uid, via):
+    ops = []
+    for cb in cbs:
+        if not cb["absent"]:
+            ops.append({"op": "create", "key": cb["key"] + CK, "names": cb["bnames"], "types": [cb["bt"][n] for n in cb["bnames"]]})
+            ops.append({"op": "write", "buckets": [{"key": cb["key"], "cols": [{"name": "Epoch", "type": "i8", "vals": [EB]}] + [
+                {"name": n, "type": cb["bt"][n], "vals": [cb["base"][n]]} for n in cb["bnames"]]}]})
+    i_req = len(ops)
+    ops.append({"op": "write", "via": via, "buckets": [{"key": cb["key"], "cols": in_cols(cb)} for cb in cbs]})
+    for cb in cbs:
+        ops += [{"op": "getinfo", "key": cb["key"]}, {"op": "query", "dest": cb["key"]}]
+    ops.append({"op": "write", "buckets": [{"key": "L%s/1H/G" % uid, "cols": [{"name": "Epoch", "type": "i8", "vals": [EB]}, {"name": "z", "type": "i4", "vals": [1]}]}]})
+    for cb in cbs:
+        ops += [{"op": "getinfo", "key": cb["key"]}, {"op": "query", "dest": cb["key"]}]
+    for cb in cbs:
+        ops.append({"op": "destroy", "key": cb["key"]})
+    ops.append({"op": "destroy", "key": "L%s/1H/G" % uid})
+    return ops, i_req
+
+
+def bucket_state(gi, q, key):
+    """observed state of a bucket: "absent" or (names, types, {epoch: [values]}) or an error string"""
+    if gi.get("panic") or q.get("panic"):
+        return "panic: %s" % (gi.get("panic") or q.get("panic"))
+    if gi.get("err"):
+        if "not found in catalog" in gi["err"]:
+            return "absent"
+        return "error: " + gi["err"]
+    names, types = gi["names"][1:], gi["types"][1:]
+    if gi["names"][0] != "Epoch":
+        return "error: first column %s" % gi["names"][0]
+    if q.get("err"):
+        return "error: query: " + q["err"]
+    rows = {}
+    for k, cols in (q.get("result") or {}).items():
+        if k.split(":")[0] != key:
+            continue
+        if not cols:
+            continue                                   # an empty result carries no columns
+        by = {c["name"]: c["vals"] for c in cols}
+        if [c["name"] for c in cols] != ["Epoch"] + names:
+            return "error: query columns %s vs bucket columns %s" % ([c["name"] for c in cols], names)
+        for r, ep in enumerate(by.get("Epoch", [])):
+            rows[ep] = [canon(by[n][r], t) for n, t in zip(names, types)]
+    return (names, types, rows)
+
+
+def expect_by_name(cb, stored, created_ok=True):
+    """state the property demands: stored = the request's rows are in the bucket"""
+    if cb["absent"]:
+        if not stored:
+            return "absent"
+        names, types = cb["inames"], [cb["it"][n] for n in cb["inames"]]
+        return (names, types, {EB + 3600 * r: [conv(row[n], cb["it"][n], cb["it"][n]) for n in names] for r, row in enumerate(cb["rows"])})
+    names, types = cb["bnames"], [cb["bt"][n] for n in cb["bnames"]]
+    rows = {EB: [[canon(cb["base"][n], cb["bt"][n])] for n in names]}
+    if stored:
+        for r, row in enumerate(cb["rows"]):
+            rows[EB + 3600 * r] = [conv(row[n], cb["it"][n], cb["bt"][n]) for n in names]
+    return (names, types, rows)
+
+
+def expect_by_position(cb):
+    """known deviation: the coerced input columns are serialised in INPUT order and read back with the bucket's layout"""
+    names, types = cb["bnames"], [cb["bt"][n] for n in cb["bnames"]]
+    rows = {}
+    for r, row in enumerate(cb["rows"]):
+        raw = b"".join(pack_val(conv(row[n], cb["it"][n], cb["bt"][n])[0], cb["bt"][n]) for n in cb["inames"])
+        vals, off = [], 0
+        for n in names:
+            t = cb["bt"][n]
+            vals.append([canon(unpack_val(raw[off:off + SIZE[t]], t), t)])
+            off += SIZE[t]
+        rows[EB + 3600 * r] = vals
+    return (names, types, rows)
+
+
+def state_matches(real, exp):
+    if isinstance(real, str) or isinstance(exp, str):
+        return real == exp
+    rn, rt, rr = real
+    en, et, er = exp
+    if rn != en or rt != et or set(rr) != set(er):
+        return False
+    for ep in er:
+        for v, alts, t in zip(rr[ep], er[ep], et):
+            if not any(same_val(v, a, t) for a in alts):
+                return False
+    return True
+
+
+def run_c14(res, tier, rng, binary):
+    quick = tier == "quick"
+    known = known_by_dev("C14")
+    devs = '{"RejectedLeavesQueued", "ReorderedByPosition"}'
+    inv = ["SetAlgebraDecidesNames", "CoercionListExact", "PureIsProperty", "PairDeviationsExplainAll", "Emit"]
+    runs = {}
+    for name, consts in (("single", dict(Names='{"a","b","c"}', MaxCols=3, NTypes=2, MaxBuckets=1)),
+                         ("double", dict(Names='{"a","b"}', MaxCols=2, NTypes=2, MaxBuckets=2))):
+        cfg = "Schema_pairs_%s.cfg" % name
+        r = vlib.run_tlc("Schema", cfg, timeout=1500, workers=4,
+                         cfg_text=vlib.cfg_text(dict(Mode='"pairs"', Deviations=devs, **consts, **HDR_DUMMY), invariants=inv))
+        vlib.tlc_ok(r, cfg)
+        if r["violated"]:
+            raise Undecided("MODEL-DRIFT: %s violates %s\n%s" % (cfg, r["violated"], r["out"][-3000:]))
+        res.tlc(r, cfg)
+        if r["records"].get("BAD") or not r["records"].get("CASE"):
+            raise Undecided("TLC case export incomplete for %s" % cfg)
+        runs[name] = r["records"]["CASE"]
+    # group the behaviours of a request (one per map iteration order)
+    reqs = collections.OrderedDict()
+    for name in ("single", "double"):
+        for c in sorted(runs[name], key=lambda c: json.dumps(c, sort_keys=True)):
+            reqs.setdefault(json.dumps(c["bk"], sort_keys=True), []).append(c)
+    singles = [v for v in reqs.values() if len(v[0]["bk"]) == 1]
+    doubles = [v for v in reqs.values() if len(v[0]["bk"]) == 2]
+    res.cov["requests_enumerated"] = {"single_bucket": len(singles), "two_bucket": len(doubles)}
+    if quick:
+        sel = rng.sample(singles, 600) + rng.sample(doubles, 220)
+        reps = 3
+    else:
+        sel, reps = singles + doubles, 4
+    tp = TypePicker(rng)
+    root = os.path.join(vlib.scratch(), "root_C14")
+    cases, meta = [{"id": "start", "ops": [{"op": "start", "root": root}]}], {}
+    n = 0
+    for beh in sel:
+        bk = beh[0]["bk"]
+        rejected_multi = len(bk) == 2 and beh[0]["expect"]["res"] == "err"
+        for rep in range(reps if rejected_multi else 1):
+            n += 1
+            cbs = c14_concretise(rng, tp, bk, n)
+            same_input = all(in_cols(cb) and [(c["name"], c["type"]) for c in in_cols(cb)] == [(c["name"], c["type"]) for c in in_cols(cbs[0])] for cb in cbs)
+            via = rng.choice(["rpc", "csm"]) if same_input else "csm"
+            ops, i_req = c14_ops(cbs, n, via)
+            cid = "p%d" % n
+            cases.append({"id": cid, "ops": ops})
+            meta[json.dumps(cid)] = (beh, cbs, ops, i_req, via)
+    obs = vlib.run_cases(binary, cases, timeout=6000)
+    stats = collections.Counter()
+    for cid, (beh, cbs, ops, i_req, via) in meta.items():
+        o = obs.get(cid)
+        bk = beh[0]["bk"]
+        replay = {"check": "schema", "prop": "C14", "request": bk, "buckets": cbs, "via": via, "ops": ops, "seed": vlib.seed()}
+        if o is None:
+            raise Undecided("no observation for case %s" % cid)
+        if isinstance(o, dict) and "died" in o:
+            res.violation("server process died (%s) during the write request %s: %s" % (o["died"], [cb["key"] for cb in cbs], (o.get("stderr") or o.get("stdout") or "")[-400:]), replay)
+            continue
+        if any(x.get("driver_error") for x in o):
+            raise Undecided("driver error in C14 case %s: %s" % (cid, [x for x in o if x.get("driver_error")][:1]))
+        if any(x.get("err") or x.get("panic") for x in o[:i_req]):
+            raise Undecided("set-up of C14 case %s failed: %s" % (cid, [x for x in o[:i_req] if x.get("err") or x.get("panic")][:1]))
+        res.cov["traces_validated_against_impl"] += 1
+        nb = len(cbs)
+        w = o[i_req]
+        real_err = bool(w.get("err") or w.get("panic"))
+        now = [bucket_state(o[i_req + 1 + 2 * b], o[i_req + 2 + 2 * b], cbs[b]["key"]) for b in range(nb)]
+        lw = o[i_req + 1 + 2 * nb]
+        later = [bucket_state(o[i_req + 2 + 2 * nb + 2 * b], o[i_req + 3 + 2 * nb + 2 * b], cbs[b]["key"]) for b in range(nb)]
+        if lw.get("err") or lw.get("panic"):
+            raise Undecided("the later successful write failed in case %s: %s" % (cid, lw))
+        e = beh[0]["expect"]
+        stats["rejected" if e["res"] == "err" else "accepted"] += 1
+        stats["via_" + via] += 1
+        if w.get("panic"):
+            res.violation("write request panicked: %s (buckets %s)" % (w["panic"], [(cb["bnames"], cb["inames"]) for cb in cbs]), replay)
+            continue
+        pure = [expect_by_name(cb, (b + 1) in e["stored"]) for b, cb in enumerate(cbs)]
+        if real_err == (e["res"] == "err") and all(state_matches(now[b], pure[b]) and state_matches(later[b], pure[b]) for b in range(nb)):
+            if nb == 2 and e["res"] == "err":
+                stats["rejected_two_bucket_requests_without_effect"] += 1
+            continue
+        # not the property's answer: is it exactly a known deviation?
+        explained = None
+        for c in beh:
+            if not c["hit"]:
+                continue
+            k = c["known"]
+            def dev_state(b, stored):
+                cb = cbs[b]
+                if cb["absent"]:
+                    if (b + 1) not in k["created"]:
+                        return "absent"
+                    if not stored:
+                        return (cb["inames"], [cb["it"][n_] for n_ in cb["inames"]], {})
+                    return expect_by_name(cb, True)
+                if stored and k["layout"][b] == "by_position":
+                    st = expect_by_position(cb)
+                    if EB not in st[2]:
+                        st[2][EB] = [[canon(cb["base"][n_], cb["bt"][n_])] for n_ in cb["bnames"]]
+                    return st
+                return expect_by_name(cb, stored)
+            if real_err == (k["res"] == "err") and all(
+                    state_matches(now[b], dev_state(b, (b + 1) in k["stored_now"])) and
+                    state_matches(later[b], dev_state(b, (b + 1) in k["stored_later"])) for b in range(nb)):
+                explained = c
+                break
+        if explained is not None:
+            stats["explained_by_known_deviation"] += 1
+            if "RejectedLeavesQueued" in explained["hit"]:
+                stats["rejected_two_bucket_requests_leaving_rows"] += 1
+            for d in explained["hit"]:
+                if d in known:
+                    res.known_finding(known[d], {"buckets": [{"key": cb["key"], "bucket_columns": [(n_, cb["bt"][n_]) for n_ in cb["bnames"]],
+                                                              "input_columns": [(n_, cb["it"][n_]) for n_ in cb["inames"]]} for cb in cbs],
+                                                 "map_order": explained["order"], "write_error": w.get("err")})
+                else:
+                    res.violation("deviation %s observed but not listed as a known finding (request %s)" % (d, bk), replay)
+            continue
+        res.violation("write request over buckets %s: error=%r; state right after the request %s, after the next flush %s; "
+                      "the property demands error=%s and state %s" % (
+                          [(cb["key"], "bucket cols %s" % [(n_, cb["bt"][n_]) for n_ in cb["bnames"]] if not cb["absent"] else "absent",
+                            "input cols %s" % [(n_, cb["it"][n_]) for n_ in cb["inames"]], "rows %s" % cb["rows"]) for cb in cbs],
+                          w.get("err"), str(now)[:500], str(later)[:500], e["res"] == "err", str(pure)[:500]), replay)
+        res.sample({"request": bk, "via": via, "buckets": [{"key": cb["key"], "bt": cb["bt"], "it": cb["it"], "rows": cb["rows"]} for cb in cbs]}, limit=3)
+    if not res.cov["samples"]:
+        cid, (beh, cbs, ops, i_req, via) = next(iter(meta.items()))
+        res.sample({"request": beh[0]["bk"], "via": via, "buckets": [{"key": cb["key"], "bt": cb["bt"], "it": cb["it"], "rows": cb["rows"]} for cb in cbs]})
+    res.cov["c14_stats"] = dict(stats)
+    res.cov["ordered_type_pairs_used"] = len(tp.used)
+    res.assumptions += ["fixed-length buckets, timeframe 1H", "float -> integer conversions only for values representable in the target type (Go leaves the rest implementation-defined)",
+                        "integer -> f4 accepts the correctly rounded value and the value rounded via float64"]
+    return res.finish()
+
+
+# ======================================================================================================
+# C15  header regions
+# ======================================================================================================
+WIRE = ["i1", "i2", "i4", "i8", "u1", "u2", "u4", "u8", "f4", "f8", "U16"]
+ONE = {"i1": 1, "i2": -2, "i4": 3, "i8": -4, "u1": 5, "u2": 6, "u4": 7, "u8": 8, "f4": 1.5, "f8": -2.25}
+
+
+def year_start(y):
+    import calendar
+    return calendar.timegm((y, 1, 1, 0, 0, 0))
+
+
+def long_name(length, uid):
+    base = "L%dx" % (uid % 10)
+    fill = "abcdefghijklmnopqrstuvwxyzABCDEFGHIJKLMNOPQRSTUVWXYZ0123456789-_"
+    if length <= len(base):
+        return "xyzw"[uid % 4] if length == 1 else base[:length]
+    return (base + fill * 2)[:length]
+
+
+def c15_concretise(rng, m, uid, now_year):
+    c = m["c"]
+    n = c["n"]
+    names = ["c%d" % i for i in range(1, n + 1)]
+    lidx = 0 if c["lpos"] == "first" else n - 1
+    names[lidx] = long_name(c["len"], uid)
+    types = [WIRE[c["ty"] - 1] if c["ty"] <= 11 else WIRE[i % 10] for i in range(n)]
+    key = "H%d/%s/G" % (uid, c["tf"])
+    var = c["rt"] == "V"
+    wy = rng.choice([now_year, now_year, 2031, 2040])
+    ep = None
+    if c["wr"] == "first":
+        ep = year_start(wy)
+    elif c["wr"] == "mid":
+        ep = year_start(wy) + 86400 * 40 + (3600 * 7 if c["tf"] == "1Min" else 0)
+
+    def row(epoch):
+        cols = [{"name": "Epoch", "type": "i8", "vals": [epoch]}] + [{"name": nm, "type": t, "vals": [ONE[t]]} for nm, t in zip(names, types)]
+        if var:
+            cols.append({"name": "Nanoseconds", "type": "i4", "vals": [0]})
+        return {"op": "write", "var": var, "buckets": [{"key": key, "cols": cols}]}
+    a_ops = [{"op": "create", "key": key + CK, "names": names, "types": types, "var": var}, {"op": "getinfo", "key": key}]
+    if ep is not None:
+        a_ops.append(row(ep))
+    b_ops = [{"op": "getinfo", "key": key}]
+    writable = "U16" not in types
+    if writable:
+        b_ops += [row(year_start(wy) + 86400 * 100), {"op": "getinfo", "key": key}]
+    return dict(m=m, key=key, names=names, types=types, var=var, tf_ns=(86400 if c["tf"] == "1D" else 60) * 10 ** 9, lidx=lidx,
+                a_ops=a_ops, b_ops=b_ops, writable=writable, write_epoch=ep)
+
+
+def info_schema(gi):
+    if gi.get("panic"):
+        return "panic: " + gi["panic"][:200]
+    if gi.get("err"):
+        return "absent" if "not found in catalog" in gi["err"] else "error: " + gi["err"]
+    if not gi["names"] or gi["names"][0] != "Epoch" or gi["types"][0] != "i8":
+        return "error: no leading Epoch column: %s" % gi["names"][:3]
+    return dict(names=gi["names"][1:], types=gi["types"][1:], var=gi["var"], tf_ns=gi["tf_ns"])
+
+
+def schema_diff(k, sc):
+    """indices (1-based) where the reported schema differs from the created one; None if the shape itself differs"""
+    if not isinstance(sc, dict) or sc["var"] != k["var"] or sc["tf_ns"] != k["tf_ns"] or len(sc["names"]) != len(k["names"]):
+        return None
+    dn = [i + 1 for i, (x, y) in enumerate(zip(sc["names"], k["names"])) if x != y]
+    dt = [i + 1 for i, (x, y) in enumerate(zip(sc["types"], k["types"])) if x != y]
+    return dn, dt
+
+
+def short(sc):
+    if not isinstance(sc, dict):
+        return sc
+    return dict(sc, names=sc["names"][:4] + ["..."] * (len(sc["names"]) > 4), types=sc["types"][:4] + ["..."] * (len(sc["types"]) > 4), n=len(sc["names"]))
+
+
+def run_c15(res, tier, rng, binary):
+    import datetime
+    quick = tier == "quick"
+    known = known_by_dev("C15")
+    devs = '{"NameTruncated32", "TooManyColumnsPanic", "DailyJan1Hole"}'
+    consts = dict(Mode='"header"', Counts="{1, 2, 255, 437, 438, 1024, 1025}", Lens="{1, 31, 32, 33, 40, 64}", TypePats="{1, 2, 3, 4, 5, 6, 7, 8, 9, 10, 11, 12}",
+                  RecTypes='{"F", "V"}', Tfs='{"1D", "1Min"}', WritePats='{"none", "mid", "first"}', **PAIR_DUMMY)
+    inv = ["PureHeaderFaithful", "RegionsFit", "HeaderDeviationsExplainAll", "HoleOnlyDaily"]
+    cfg = "Schema_header_pure.cfg"
+    r = vlib.run_tlc("Schema", cfg, timeout=1500, cfg_text=vlib.cfg_text(dict(consts, Deviations="{}"), invariants=inv))
+    vlib.tlc_ok(r, cfg)
+    if r["violated"]:
+        raise Undecided("MODEL-DRIFT: %s violates %s\n%s" % (cfg, r["violated"], r["out"][-3000:]))
+    res.tlc(r, cfg)
+    cfg = "Schema_header_dev.cfg"
+    r = vlib.run_tlc("Schema", cfg, timeout=1500, workers=4, cfg_text=vlib.cfg_text(dict(consts, Deviations=devs), invariants=inv + ["Emit"]))
+    vlib.tlc_ok(r, cfg)
+    if r["violated"]:
+        raise Undecided("MODEL-DRIFT: %s violates %s\n%s" % (cfg, r["violated"], r["out"][-3000:]))
+    res.tlc(r, cfg)
+    allc = sorted(r["records"].get("HDR", []), key=lambda c: json.dumps(c, sort_keys=True))
+    if r["records"].get("BAD") or len(allc) * 3 != r["distinct"]:
+        raise Undecided("TLC case export incomplete: %d cases, %d states" % (len(allc), r["distinct"]))
+    res.cov["cases_enumerated"] = len(allc)
+
+    def dangerous(m):
+        k = m["known"]
+        return k["created"] != "ok" and m["c"]["n"] > 1024 or k["bad_fixed"] or k["bad_types"]["lo"] or k["bad_names"]["lo"]
+    danger = [m for m in allc if dangerous(m)]
+    trunc = [m for m in allc if not dangerous(m) and "NameTruncated32" in m["hit"]]
+    small = [m for m in allc if not dangerous(m) and "NameTruncated32" not in m["hit"] and m["c"]["n"] <= 2]
+    big = [m for m in allc if not dangerous(m) and "NameTruncated32" not in m["hit"] and m["c"]["n"] > 2]
+    if quick:
+        panics = [m for m in danger if m["c"]["n"] > 1024]
+        holes = [m for m in danger if m["c"]["n"] <= 1024]
+        sel_d = rng.sample(panics, 3) + rng.sample(holes, min(len(holes), 8))
+        sel = rng.sample(trunc, 40) + rng.sample(small, 160) + rng.sample(big, 16)
+    else:
+        sel_d = rng.sample(danger, min(len(danger), 150))
+        sel = trunc[:] if len(trunc) < 1500 else rng.sample(trunc, 1500)
+        sel += small + rng.sample(big, min(len(big), 500))
+    res.cov["cases_selected"] = {"dangerous": len(sel_d), "other": len(sel)}
+    now_year = datetime.datetime.utcnow().year
+    # units: A = before the restart, B = after; dangerous cases alone, the others in batches on one root
+    rng.shuffle(sel)
+    groups = [[m] for m in sel_d]
+    light = [m for m in sel if m["c"]["n"] <= 2]
+    heavy = [m for m in sel if m["c"]["n"] > 2]
+    groups += list(chunks(light, 12)) + list(chunks(heavy, 3))
+    cases, meta = [], []
+    uid = 0
+    for g, members in enumerate(groups):
+        root = os.path.join(vlib.scratch(), "root_C15_%d" % g)
+        ks = []
+        a_ops, b_ops = [{"op": "start", "root": root}], [{"op": "start", "root": root}]
+        for m in members:
+            uid += 1
+            k = c15_concretise(rng, m, uid, now_year)
+            k["a_at"], k["b_at"] = len(a_ops), len(b_ops)
+            a_ops += k["a_ops"]
+            b_ops += k["b_ops"]
+            ks.append(k)
+        b_ops.append({"op": "rmworld", "x": {"dir": root}})
+        cases.append({"id": "A%d" % g, "ops": a_ops})
+        cases.append({"id": "B%d" % g, "ops": b_ops})
+        meta.append((g, ks, a_ops, b_ops))
+    obs = run_chunked(binary, cases, 60, timeout=6000)
+    stats = collections.Counter()
+    for g, ks, a_ops, b_ops in meta:
+        oa, ob = obs.get(json.dumps("A%d" % g)), obs.get(json.dumps("B%d" % g))
+        if oa is None or ob is None:
+            raise Undecided("no observation for C15 unit %d" % g)
+        replay_unit = {"check": "schema", "prop": "C15", "seed": vlib.seed(), "ops_before_restart": a_ops if len(json.dumps(a_ops)) < 200000 else "(large)",
+                       "ops_after_restart": b_ops if len(json.dumps(b_ops)) < 200000 else "(large)", "cases": [k["m"]["c"] for k in ks]}
+        a_died = isinstance(oa, dict) and "died" in oa
+        b_died = isinstance(ob, dict) and "died" in ob
+        for x in ([] if a_died else oa) + ([] if b_died else ob):
+            if isinstance(x, dict) and x.get("driver_error"):
+                raise Undecided("driver error in C15 unit %d: %s" % (g, x))
+        for k in ks:
+            m, c = k["m"], k["m"]["c"]
+            kn = m["known"]
+            res.cov["traces_validated_against_impl"] += 1
+            desc = "bucket %s (%d columns, long name of %d bytes %s, types %s%s, %s, %s, write pattern %s)" % (
+                k["key"], c["n"], c["len"], c["lpos"], k["types"][:3], "..." if c["n"] > 3 else "", "variable" if k["var"] else "fixed", c["tf"], c["wr"])
+            replay = dict(replay_unit, key=k["key"], case=c, names=k["names"][:3] + k["names"][-1:], write_epoch=k["write_epoch"])
+            if a_died:
+                res.violation("server process died (%s) while creating / writing %s: %s" % (oa["died"], desc, (oa.get("stderr") or oa.get("stdout") or "")[-300:]), replay)
+                continue
+            cr = oa[k["a_at"]]
+            created = "panic" if cr.get("panic") else ("rejected" if cr.get("err") else "ok")
+            stats["create_" + created] += 1
+            wr1 = oa[k["a_at"] + 2] if k["write_epoch"] is not None else {}
+            if b_died:
+                # the server did not survive reading the buckets back
+                if len(ks) == 1 and kn["created"] == "panic_empty_file" and created == "panic" and "TooManyColumnsPanic" in known:
+                    res.known_finding(known["TooManyColumnsPanic"], {"key": k["key"], "columns": c["n"], "create": cr.get("panic"),
+                                                                     "after_restart": "process ended: " + (ob.get("stdout") or ob.get("stderr") or "")[-160:]})
+                    stats["known_panic_then_fatal"] += 1
+                    continue
+                if len(ks) == 1 and "DailyJan1Hole" in m["hit"] and (kn["bad_fixed"] or kn["bad_types"]["lo"] or kn["bad_names"]["lo"]) and "DailyJan1Hole" in known:
+                    res.known_finding(known["DailyJan1Hole"], {"key": k["key"], "columns": c["n"], "record_length": m["reclen"],
+                                                               "after_restart": "process ended: " + (ob.get("stdout") or ob.get("stderr") or "")[-160:]})
+                    stats["known_header_overwritten"] += 1
+                    continue
+                res.violation("server process died (%s) after the restart while reporting the schema of %s: %s" % (
+                    ob["died"], desc if len(ks) == 1 else [x["key"] for x in ks], (ob.get("stderr") or ob.get("stdout") or "")[-300:]), replay)
+                break
+            info2 = info_schema(ob[k["b_at"]])
+            w2 = ob[k["b_at"] + 1] if k["writable"] else {}
+            info3 = info_schema(ob[k["b_at"] + 2]) if k["writable"] else info2
+            want = dict(names=k["names"], types=k["types"], var=k["var"], tf_ns=k["tf_ns"])
+            if created == "rejected" and info2 == "absent":
+                stats["rejected_cleanly"] += 1
+                continue                                           # rejected: nothing to preserve
+            if created == "ok" and info2 == want and info3 == want and not (w2.get("err") or w2.get("panic")) and not (wr1.get("err") or wr1.get("panic")):
+                stats["preserved"] += 1
+                if not m["expect"] == "ok":
+                    stats["preserved_although_model_says_unfaithful"] += 1
+                res.sample({"key": k["key"], "case": c, "reported_after_restart": short(info2)}, limit=3)
+                continue
+            # not the property's answer.  Exactly a known deviation?
+            hit = set(m["hit"])
+            ok_known = False
+            if created == "ok" and kn["created"] == "ok" and hit and hit <= set(known):
+                exp_names = list(k["names"])
+                if "NameTruncated32" in hit:
+                    exp_names[k["lidx"]] = k["names"][k["lidx"]].encode()[:32].decode("utf-8", "replace")
+                bad_n = set(range(kn["bad_names"]["lo"], kn["bad_names"]["hi"] + 1)) if kn["bad_names"]["lo"] else set()
+                bad_t = set(range(kn["bad_types"]["lo"], kn["bad_types"]["hi"] + 1)) if kn["bad_types"]["lo"] else set()
+
+                def fits(sc):
+                    if not isinstance(sc, dict):
+                        return bool(kn["bad_fixed"] or bad_n or bad_t) and not sc == "absent"
+                    d = schema_diff(dict(k, names=exp_names), sc)
+                    if d is None:
+                        return bool(kn["bad_fixed"])
+                    return set(d[0]) <= bad_n and set(d[1]) <= bad_t
+                w2_ok = not (w2.get("err") or w2.get("panic"))
+                # a bucket that enforces a truncated name rejects the created one; a corrupted header may reject anything
+                w2_fits = (not w2_ok) if ("NameTruncated32" in hit and not (bad_n or bad_t or kn["bad_fixed"])) else True
+                wr1_ok = not (wr1.get("err") or wr1.get("panic"))
+                ok_known = fits(info2) and fits(info3) and w2_fits and (wr1_ok or "NameTruncated32" in hit)
+            if ok_known:
+                for d in sorted(hit):
+                    if d == "DailyJan1Hole" and schema_diff(dict(k, names=exp_names), info2) == ([], []) and schema_diff(dict(k, names=exp_names), info3) == ([], []):
+                        continue                                   # the hole was hit but no visible schema byte changed
+                    res.known_finding(known[d], {"key": k["key"], "columns": c["n"], "created_long_name": k["names"][k["lidx"]][:70], "record_length": m["reclen"],
+                                                 "reported_after_restart": short(info2), "write_with_created_schema": w2.get("err") or w2.get("panic")})
+                    stats["known_" + d] += 1
+                continue
+            res.violation("%s: create -> %s; after a restart the server reports %s (after one more write: %s), a write with the created schema -> %r; "
+                          "created: %s" % (desc, cr.get("panic") or cr.get("err") or "ok", short(info2), short(info3), w2.get("err") or w2.get("panic"),
+                                           short(want)), replay)
+    res.cov["c15_stats"] = dict(stats)
+    if not res.cov["samples"]:
+        res.sample({"cases": [k["m"]["c"] for k in meta[0][1]][:3]})
+    res.assumptions += ["one long column name per schema, the others are short and unique", "U16 columns are created and reloaded but never written",
+                        "the restart is a second instance start on the same root inside the driver process"]
     return res.finish()
 
 
@@ -232,4 +908,8 @@ def run(prop, tier):
     binary = vlib.build_harness(cmd="mv_schema")
     if prop == "C16":
         return run_c16(res, tier, rng, binary)
+    if prop == "C14":
+        return run_c14(res, tier, rng, binary)
+    if prop == "C15":
+        return run_c15(res, tier, rng, binary)
     raise Undecided("not built yet")
